@@ -549,7 +549,7 @@ std::unique_ptr<PyTreeSpec> PyTreeSpec::Transform(const std::optional<py::functi
             subroot.num_leaves = 0;
             subroot.num_nodes = 1;
             for (ssize_t i = 0; i < node.arity; ++i) {
-                const auto& [num_leaves, num_nodes] = pending_num_leaves_nodes.back();
+                const auto [num_leaves, num_nodes] = pending_num_leaves_nodes.back();
                 pending_num_leaves_nodes.pop_back();
                 subroot.num_leaves += num_leaves;
                 subroot.num_nodes += num_nodes;
